@@ -1367,7 +1367,8 @@ rrul_fill_wly(echs_instant_t *restrict tgt, size_t nti, rrulsp_t rr)
 	}
 
 	/* check ranges before filling */
-	if (UNLIKELY(!m || m > 12U || !d || d > 31U)) {
+	if (UNLIKELY(!m || m > 12U || !d ||
+		     d > echs_scale_ndim(srcsca, y, m))) {
 		goto fin;
 	}
 
@@ -1536,7 +1537,8 @@ rrul_fill_dly(echs_instant_t *restrict tgt, size_t nti, rrulsp_t rr)
 	}
 
 	/* check ranges before filling */
-	if (UNLIKELY(!m || m > 12U || !d || d > 31U)) {
+	if (UNLIKELY(!m || m > 12U || !d ||
+		     d > echs_scale_ndim(srcsca, y, m))) {
 		goto fin;
 	}
 
@@ -1690,7 +1692,8 @@ rrul_fill_Hly(echs_instant_t *restrict tgt, size_t nti, rrulsp_t rr)
 	}
 
 	/* check ranges before filling */
-	if (UNLIKELY(y < 1600U || !m || m > 12U || !d || d > 31U)) {
+	if (UNLIKELY(y < 1600U || !m || m > 12U || !d ||
+		     d > __get_ndom(y, m))) {
 		goto fin;
 	}
 
@@ -1958,7 +1961,8 @@ rrul_fill_Mly(echs_instant_t *restrict tgt, size_t nti, rrulsp_t rr)
 	}
 
 	/* check ranges before filling */
-	if (UNLIKELY(y < 1600U || !m || m > 12U || !d || d > 31U)) {
+	if (UNLIKELY(y < 1600U || !m || m > 12U || !d ||
+		     d > __get_ndom(y, m))) {
 		goto fin;
 	}
 
@@ -2171,7 +2175,8 @@ rrul_fill_Sly(echs_instant_t *restrict tgt, size_t nti, rrulsp_t rr)
 	}
 
 	/* check ranges before filling */
-	if (UNLIKELY(y < 1600U || !m || m > 12U || !d || d > 31U)) {
+	if (UNLIKELY(y < 1600U || !m || m > 12U || !d ||
+		     d > __get_ndom(y, m))) {
 		goto fin;
 	}
 
